@@ -255,6 +255,18 @@ Fixpoint run_b (cfg : config) (ost : option state) (brqs : list (rrequest * bool
     (ost2, (mask aw resp, evs) :: out)
   end.
 
+(** the request loop seen through the account stream: an event reaches somebody only while a
+    receiver is subscribed ([sub]); processing, responses and storage are those of [run_request] *)
+Fixpoint run_s (cfg : config) (ost : option state) (srqs : list (rrequest * bool))
+  : option state * list (rresp * list event) :=
+  match srqs with
+  | [] => (ost, [])
+  | (rq, sub) :: t =>
+    let '(ost1, resp, evs) := run_request cfg ost rq in
+    let '(ost2, out) := run_s cfg ost1 t in
+    (ost2, (resp, if sub then evs else []) :: out)
+  end.
+
 (* ---- guards ------------------------------------------------------------------------------------ *)
 
 (** the inputs on which the code neither hits the [expect] nor the [assert_eq!]: every
